@@ -19,7 +19,8 @@ ID = "C19"
 ENGINE = "eqlmc-E1"
 RULE = ("cases = (shape family, program) on the falsy datasets; families: cond1/cond2 (condition trees, all leaves with a "
         "falsy-capable operand), sel (selected expressions), field (predicate-form field constraints), ctor (inferred "
-        "instances), flat (flattened elements); non-trivial = expected rows neither empty nor everything")
+        "instances), flat (flattened elements); non-trivial = expected rows neither empty nor everything"
+        ' Wave 7: for_all over attribute / call / un-nested universals with falsy values; one expression object in condition position and selected / a constructor argument / a predicate argument / a concatenated collection, made true by another disjunct.')
 ASSUMPTIONS = ["strings are treated as scalars by flatten (library convention), so no string-valued collections"]
 
 
